@@ -135,7 +135,8 @@ func TestVerifC06(t *testing.T) {
 func c06State(R *vr.Result, rng *rand.Rand, id string, sidx int) {
 	dir := ovlWork("c06")
 	sets := ref.CheapSets(rng, 2)
-	users := []ovlUser{{Name: "root", Pw: "root-pw", Admin: true, Set: 1}, {Name: "adm2", Pw: "adm2-pw", Admin: true, Set: 1}, {Name: "alice", Pw: "alice-pw", Set: 1, Aux: "totp: QUJD\n"}, {Name: "bob", Pw: "bob-pw", Set: 2}, {Name: "carl", Pw: "carl-pw", Set: 1}, {Name: "Bob", Pw: "Bob-pw", Set: 1}, {Name: "ROOT", Pw: "ROOT-pw", Set: 2}}
+	users := []ovlUser{{Name: "root", Pw: "root-pw", Admin: true, Set: 1}, {Name: "adm2", Pw: "adm2-pw", Admin: true, Set: 1}, {Name: "alice", Pw: "alice-pw", Set: 1, Aux: "totp: QUJD\n"}, {Name: "bob", Pw: "bob-pw", Set: 2}, {Name: "carl", Pw: "carl-pw", Set: 1}, {Name: "Bob", Pw: "Bob-pw", Set: 1}, {Name: "ROOT", Pw: "ROOT-pw", Set: 2},
+		{Name: "bob@example.org", Pw: "bob-at-example-pw", Set: 1}, {Name: "root@x", Pw: "root-at-x-pw", Set: 2}} // accounts of their own, not aliases of bob / root
 	st := ovlMkStore(rng, dir, sets, 1, users)
 	ag, err := NewStore(st.Cfg, "", "", "", "")
 	if err != nil {
@@ -265,7 +266,7 @@ func c06State(R *vr.Result, rng *rand.Rand, id string, sidx int) {
 		}
 	}
 	// update with old password / both / neither
-	for _, tg := range []string{"alice", "bob", "root", "ghost", "../x", "carl"} {
+	for _, tg := range []string{"alice", "bob", "root", "ghost", "../x", "carl", "bob@example.org", "root@x", "alice@example.org"} {
 		for _, op := range []string{"right", "wrong", "empty", "other-users"} {
 			for _, cr := range []*c06Tok{{Kind: "none"}, toks["root"], toks["alice"], toks["bob"], toks["Bob"], {Kind: "garbage", Text: "zzz"}} {
 				for _, np := range []string{"brand-new-pw", ""} {
@@ -280,7 +281,7 @@ func c06State(R *vr.Result, rng *rand.Rand, id string, sidx int) {
 		}
 	}
 	// authenticate
-	for _, u := range []string{"alice", "bob", "root", "adm2", "carl", "ghost", "../x", ""} {
+	for _, u := range []string{"alice", "bob", "root", "adm2", "carl", "ghost", "../x", "", "bob@example.org", "root@x", "alice@example.org"} {
 		for _, pk := range []string{"right", "wrong", "empty", "other-users"} {
 			cid := fmt.Sprintf("%s/authenticate/%s/%s", id, u, pk)
 			if R.Want(cid) {
@@ -547,6 +548,10 @@ func (w *c06World) cellUpdateOldPw(cid string, cr *c06Tok, tg, op, np string) {
 		if tg == "root" {
 			oldpw = w.model["alice"].Pw
 		}
+		// for name@realm: the password of the account called name
+		if pre, _, cut := strings.Cut(tg, "@"); cut && w.model[pre] != nil {
+			oldpw = w.model[pre].Pw
+		}
 	}
 	if oldpw != "" {
 		m["oldpassword"] = oldpw
@@ -620,6 +625,9 @@ func (w *c06World) cellAuthenticate(cid, user, pk string) {
 		pw = w.model["root"].Pw
 		if user == "root" {
 			pw = w.model["alice"].Pw
+		}
+		if pre, _, cut := strings.Cut(user, "@"); cut && w.model[pre] != nil {
+			pw = w.model[pre].Pw
 		}
 	}
 	body, _ := json.Marshal(map[string]string{"username": user, "password": pw})
